@@ -79,7 +79,8 @@ Ltac py_unfold_hook ::= autounfold with info_model.
 Lemma cmninfo_decode_func n fid data :
   call_func program (S n) Parser_frame_cmninfo_decode
     [pa; frame_obj (enum_id fid) data (perr_obj "NOERR" 0)] [] =
-  do r <- emb_opt cmninfo_obj pa (Info.frame_cmninfo_decode fid data); PyLite.Ok (fst r, Some (snd r)).
+  do r <- attach (self_st pa) (emb_opt cmninfo_obj pa (Info.frame_cmninfo_decode fid data));
+  PyLite.Ok (fst r, Some (snd r)).
 Proof. pystart. unfold Info.frame_cmninfo_decode. pyrun. Qed.
 
 Lemma cmninfo_decode_func_None n :
@@ -89,7 +90,8 @@ Proof. pystart. pyrun. Qed.
 Lemma ack_decode_func n fid data :
   call_func program (S n) Parser_frame_ack_decode
     [pa; frame_obj (enum_id fid) data (perr_obj "NOERR" 0)] [] =
-  do r <- emb_opt ack_obj pa (Info.frame_ack_decode fid data); PyLite.Ok (fst r, Some (snd r)).
+  do r <- attach (self_st pa) (emb_opt ack_obj pa (Info.frame_ack_decode fid data));
+  PyLite.Ok (fst r, Some (snd r)).
 Proof. pystart. unfold Info.frame_ack_decode. pyrun. Qed.
 
 Lemma ack_decode_func_None n :
@@ -150,13 +152,15 @@ Definition emb_enc (self : pv) (r : Frame.res bytes) : PyLite.res (pv * pv) :=
 
 Lemma frame_create_func n name fid data :
   call_func program (S n) SerialFrame_frame_create [sf; PEnum "EParseId" name fid true; PBytes data] [] =
-  do r <- emb_enc sf (Frame.frame_create fid data); PyLite.Ok (fst r, Some (snd r)).
+  do r <- attach (self_st sf) (emb_enc sf (Frame.frame_create fid data));
+  PyLite.Ok (fst r, Some (snd r)).
 Proof. pystart. unfold Frame.frame_create. pyrun. Qed.
 #[local] Hint Resolve frame_create_func : pyspec.
 
 Lemma ack_encode_func n cbv ack :
   call_func program (S (S n)) ParseRecv_frame_ack_encode [pr cbv; PInt ack] [] =
-  do r <- emb_enc (pr cbv) (Info.frame_ack_encode ack); PyLite.Ok (fst r, Some (snd r)).
+  do r <- attach (self_st (pr cbv)) (emb_enc (pr cbv) (Info.frame_ack_encode ack));
+  PyLite.Ok (fst r, Some (snd r)).
 Proof. pystart. unfold Info.frame_ack_encode. pyrun. Qed.
 #[local] Hint Resolve ack_encode_func : pyspec.
 
@@ -170,7 +174,7 @@ Lemma device_data_func n fs :
   call_func program (S n) Device_data [PObj "Device" fs] [] =
   match lookup "_data" fs with
   | Some d => PyLite.Ok (d, Some (PObj "Device" fs))
-  | None => Exc "AttributeError"
+  | None => ExcS "AttributeError" (self_st (PObj "Device" fs))
   end.
 Proof. pystart. pyrun. Qed.
 #[local] Hint Resolve device_data_func : pyspec.
@@ -182,7 +186,8 @@ Lemma cmninfo_data_encode_func n cbv dcls dfs rest a b c :
   lookup "rxpadding" dfs = Some (PInt c) ->
   call_func program (S (S n)) ParseRecv__cmninfo_data_encode
     [pr cbv; PObj "Device" (("_data", PObj dcls dfs) :: rest)] [] =
-  do r <- emb_enc (pr cbv) (Info.cmninfo_data_encode a b c); PyLite.Ok (fst r, Some (snd r)).
+  do r <- attach (self_st (pr cbv)) (emb_enc (pr cbv) (Info.cmninfo_data_encode a b c));
+  PyLite.Ok (fst r, Some (snd r)).
 Proof. pystart. unfold Info.cmninfo_data_encode. pyrun. Qed.
 #[local] Hint Resolve cmninfo_data_encode_func : pyspec.
 #[local] Arguments Info.cmninfo_data_encode : simpl never.
@@ -194,7 +199,8 @@ Lemma cmninfo_encode_func n cbv dcls dfs rest a b c :
   lookup "rxpadding" dfs = Some (PInt c) ->
   call_func program (S (S (S n))) ParseRecv_frame_cmninfo_encode
     [pr cbv; PObj "Device" (("_data", PObj dcls dfs) :: rest)] [] =
-  do r <- emb_enc (pr cbv) (Info.frame_cmninfo_encode a b c); PyLite.Ok (fst r, Some (snd r)).
+  do r <- attach (self_st (pr cbv)) (emb_enc (pr cbv) (Info.frame_cmninfo_encode a b c));
+  PyLite.Ok (fst r, Some (snd r)).
 Proof. pystart. unfold Info.frame_cmninfo_encode. pyrun. Qed.
 #[local] Hint Resolve cmninfo_encode_func : pyspec.
 
@@ -349,7 +355,8 @@ Ltac py_stuck_hook h ::=
 Lemma chinfo_decode_func n fid data chan :
   call_func program (S (S (S (S (S n))))) Parser_frame_chinfo_decode
     [pa; frame_obj (enum_id fid) data (perr_obj "NOERR" 0); PInt chan] [] =
-  do r <- emb_opt (emb_chan chan) pa (Info.frame_chinfo_decode fid data); PyLite.Ok (fst r, Some (snd r)).
+  do r <- attach (self_st pa) (emb_opt (emb_chan chan) pa (Info.frame_chinfo_decode fid data));
+  PyLite.Ok (fst r, Some (snd r)).
 Proof. pystart. unfold Info.frame_chinfo_decode. pyrun. Qed.
 
 Lemma chinfo_decode_func_None n chan :
@@ -372,7 +379,7 @@ Lemma channel_data_func n fs :
   call_func program (S n) DeviceChannel_data [PObj "DeviceChannel" fs] [] =
   match lookup "_data" fs with
   | Some d => PyLite.Ok (d, Some (PObj "DeviceChannel" fs))
-  | None => Exc "AttributeError"
+  | None => ExcS "AttributeError" (self_st (PObj "DeviceChannel" fs))
   end.
 Proof. pystart. pyrun. Qed.
 #[local] Hint Resolve channel_data_func : pyspec.
@@ -384,7 +391,8 @@ Lemma chinfo_data_encode_func n cbv chan typ vdim cps en div mlen :
   forallb valid_cp cps = true ->
   call_func program (S (S n)) ParseRecv__chinfo_data_encode
     [pr cbv; chan_obj chan typ vdim (bytes_str (utf8_enc cps)) en div mlen] [] =
-  do r <- emb_enc (pr cbv) (Info.chinfo_data_encode (Info.mkChan en typ vdim div mlen cps));
+  do r <- attach (self_st (pr cbv))
+                 (emb_enc (pr cbv) (Info.chinfo_data_encode (Info.mkChan en typ vdim div mlen cps)));
   PyLite.Ok (fst r, Some (snd r)).
 Proof. pystart. unfold Info.chinfo_data_encode. pyrun. Qed.
 #[local] Hint Resolve chinfo_data_encode_func : pyspec.
@@ -393,7 +401,8 @@ Lemma chinfo_encode_func n cbv chan typ vdim cps en div mlen :
   forallb valid_cp cps = true ->
   call_func program (S (S (S n))) ParseRecv_frame_chinfo_encode
     [pr cbv; chan_obj chan typ vdim (bytes_str (utf8_enc cps)) en div mlen] [] =
-  do r <- emb_enc (pr cbv) (Info.frame_chinfo_encode (Info.mkChan en typ vdim div mlen cps));
+  do r <- attach (self_st (pr cbv))
+                 (emb_enc (pr cbv) (Info.frame_chinfo_encode (Info.mkChan en typ vdim div mlen cps)));
   PyLite.Ok (fst r, Some (snd r)).
 Proof. pystart. unfold Info.frame_chinfo_encode. pyrun. Qed.
 #[local] Hint Resolve chinfo_encode_func : pyspec.
